@@ -2281,8 +2281,32 @@ impl<'a> Interp<'a> {
     }
 
     fn op_tick(&mut self, periodic: bool) {
+        let pre = self.sut.snapshot().entries;
         let r = self.sut.step_cleanup();
         let log = self.sut.take_log();
+        // model-free (C05: "handed to on_evict exactly once", C08): an expired entry that was stored
+        // when the sweep began and is gone when it ends has left through a callback of this step -
+        // on_evict from the sweep, or the callback of a client action interposed into it (a
+        // clear() drops without callback and is excused)
+        {
+            let now = self.m.now;
+            let cleared = self.nested.borrow().iter().any(|o| matches!(o, NObs::Cleared(_)) || matches!(o, NObs::Step(s) if s.contains("clear")));
+            if !cleared {
+                let post: BTreeSet<Val> = self.sut.snapshot().entries.iter().map(|e| e.value).collect();
+                for e in pre.iter() {
+                    let (t, c) = (dur_ns(e.ttl), st_ns(e.created_at));
+                    let expired = t > 0 && t < HUGE_TTL && c.saturating_add(t) <= now;
+                    if expired && !post.contains(&e.value) && !log.iter().any(|ev| ev.val() == Some(e.value)) {
+                        self.fail(
+                            "swept_without_callback",
+                            &["C05", "C08"],
+                            format!("cleanup at {}: index {} ({}) expired at {}, was stored when the sweep began and is gone now, but no callback received it (cleanup returned {:?})", now - T0, e.index, e.value, c + t - T0, r),
+                        );
+                        break;
+                    }
+                }
+            }
+        }
         self.tr(|| format!("cleanup tick{} -> {:?} {:?}", if periodic { " (periodic)" } else { "" }, r, log));
         if let Err(e) = r {
             self.fail("processor_error", &["C20"], format!("cleanup reported {}", e));
